@@ -1307,7 +1307,11 @@ def replay(ctx: core.Ctx, payload: dict[str, Any]) -> bool:
                 run_malformed(ctx, [c], "replay")
         elif w.get("kind") == "finding":
             cs = [c for c in finding_cases() if c["finding_key"] == w["key"]]
-            run_cases(ctx, cs, "replay")
+            if cs:
+                run_cases(ctx, cs, "replay")
+            ms = [c for c in fixed_malformed() if c["finding_key"] == w["key"]]
+            if ms:
+                run_malformed(ctx, ms, "replay")
     finally:
         cleanup()
     return len(ctx.violations) > before
